@@ -17,5 +17,5 @@ env LD_LIBRARY_PATH="$SYSROOT/lib" \
   RUSTFLAGS="-Zmir-opt-level=0 -Zalways-encode-mir -Awarnings" \
   RUSTC_WORKSPACE_WRAPPER="$DRV" CARGO_TARGET_DIR="$TGT" \
   MIRFACTS_OUT="$OUT" MIRFACTS_CFG="$CFG" MIRFACTS_ROOTS="$HERE/roots.txt" \
-  CARGO_NET_OFFLINE=true \
+  CARGO_NET_OFFLINE=true CARGO_PROFILE_DEV_DEBUG_ASSERTIONS=false CARGO_PROFILE_DEV_OVERFLOW_CHECKS=true \
   cargo +nightly check --offline "$@" >"$OUT/cargo.$CFG.log" 2>&1 || { tail -40 "$OUT/cargo.$CFG.log" >&2; exit 3; }
